@@ -85,6 +85,15 @@ pub fn gen(m: Mode, tier: &str, seed: u64, idx: u64, base: u64) -> Spec {
     Spec { check: if m == Mode::C04 { "C04" } else { "C28" }.into(), world, slots, ops, db, budget: 300_000, points: None, scheds: None, cap: 0, params: Default::default() }
 }
 
+/// which way a contradiction between the SLG answer `a` and the recursive answer `b` goes
+fn direction(a: &Sol, b: &Sol) -> &'static str {
+    match (a, b) {
+        (None, Some(_)) => "slg-none-rec-unique",
+        (Some(_), None) => "slg-unique-rec-none",
+        _ => "substitutions-differ",
+    }
+}
+
 pub fn exec(m: Mode, spec: &Spec, r: &mut RunResult) {
     let mut l = match lower(&spec.world) {
         Ok(l) => l,
@@ -192,7 +201,7 @@ pub fn exec(m: Mode, spec: &Spec, r: &mut RunResult) {
                             }
                             let (a, b) = if op.slot == 0 { (s.clone(), o) } else { (o, s.clone()) };
                             if let Some(why) = cmp::contradiction(&a, &b) {
-                                let mut sig = "pair:contradiction".to_string();
+                                let mut sig = format!("pair:{}", direction(&a, &b));
                                 if let Some((_, goals)) = &frag {
                                     if let Some(Ok(ast)) = goals.get(op.goal) {
                                         let mut gp = vec![];
@@ -227,7 +236,7 @@ pub fn exec(m: Mode, spec: &Spec, r: &mut RunResult) {
                 if let (Out::Ans(a), Out::Ans(b)) = (&a, &b) {
                     r.bump("c04.fresh_pairs_compared", 1);
                     if let Some(why) = cmp::contradiction(a, b) {
-                        let mut sig = "pair:contradiction".to_string();
+                        let mut sig = format!("pair:{}", direction(a, b));
                         if let Some((_, goals)) = &frag {
                             if let Some(Ok(ast)) = goals.get(gi) {
                                 let mut gp = vec![];
